@@ -57,7 +57,7 @@ VARIABLES
 vars == <<top, win, tags, wire, npub, faults, cfg, pc, hub, hres, buf, sub, pend, chk, nchk, out, step>>
 
 Positioned == cfg.kind \in {"pos", "rec", "cache"}
-Buffering  == Positioned /\ pc \in {"g1", "g2", "g3"}
+Buffering  == Positioned /\ pc \in {"g1", "g2", "g3", "gp", "g4"}
 \* Publications are tagged t = "keep", t = "drop" or carry no tags at all ("none"). A positive filter (t eq keep) admits
 \* only "keep"; a negative one (cfg.neg: t neq drop) admits everything except "drop", in particular untagged publications.
 Filtered(tag) == cfg.filt /\ (IF cfg.neg THEN tag = "drop" ELSE tag # "keep")
@@ -76,21 +76,21 @@ NoSince == [off |-> 0, ep |-> ""]
 \* insufficient state later disconnects (3010) instead of unsubscribing; a failed subscribe is returned to the caller
 SFilt == {f \in Filt : f.filt => f.sf}
 ClientCfgs ==
-  {[kind |-> k, filt |-> f.filt, sf |-> f.sf, neg |-> f.neg, auto |-> FALSE, noep |-> FALSE, server |-> FALSE, since |-> NoSince] : k \in Kinds \ {"rec", "cache"}, f \in Filt}
-  \cup (IF "pos" \in Kinds THEN {[kind |-> "pos", filt |-> f.filt, sf |-> f.sf, neg |-> f.neg, auto |-> FALSE, noep |-> TRUE, server |-> FALSE, since |-> NoSince] : f \in Filt} ELSE {})
+  {[kind |-> k, filt |-> f.filt, sf |-> f.sf, neg |-> f.neg, pop |-> FALSE, auto |-> FALSE, noep |-> FALSE, server |-> FALSE, since |-> NoSince] : k \in Kinds \ {"rec", "cache"}, f \in Filt}
+  \cup (IF "pos" \in Kinds THEN {[kind |-> "pos", filt |-> f.filt, sf |-> f.sf, neg |-> f.neg, pop |-> FALSE, auto |-> FALSE, noep |-> TRUE, server |-> FALSE, since |-> NoSince] : f \in Filt} ELSE {})
   \cup (IF "rec" \in Kinds
-          THEN {[kind |-> "rec", filt |-> f.filt, sf |-> f.sf, neg |-> f.neg, auto |-> FALSE, noep |-> FALSE, server |-> FALSE, since |-> [off |-> o, ep |-> e]] :
+          THEN {[kind |-> "rec", filt |-> f.filt, sf |-> f.sf, neg |-> f.neg, pop |-> FALSE, auto |-> FALSE, noep |-> FALSE, server |-> FALSE, since |-> [off |-> o, ep |-> e]] :
                   f \in Filt, o \in 0..MaxPub, e \in {"", Ep, "e2"}}
           ELSE {})
   \cup (IF "cache" \in Kinds
-          THEN {[kind |-> "cache", filt |-> f.filt, sf |-> f.sf, neg |-> f.neg, auto |-> FALSE, noep |-> FALSE, server |-> FALSE, since |-> [off |-> o, ep |-> e]] :
-                  f \in Filt, o \in 0..MaxPub, e \in {"", Ep, "e2"}}
-               \cup {[kind |-> "cache", filt |-> f.filt, sf |-> f.sf, neg |-> f.neg, auto |-> TRUE, noep |-> FALSE, server |-> FALSE, since |-> NoSince] : f \in Filt}
+          THEN {[kind |-> "cache", filt |-> f.filt, sf |-> f.sf, neg |-> f.neg, pop |-> p, auto |-> FALSE, noep |-> FALSE, server |-> FALSE, since |-> [off |-> o, ep |-> e]] :
+                  f \in Filt, o \in 0..MaxPub, e \in {"", Ep, "e2"}, p \in BOOLEAN}
+               \cup {[kind |-> "cache", filt |-> f.filt, sf |-> f.sf, neg |-> f.neg, pop |-> p, auto |-> TRUE, noep |-> FALSE, server |-> FALSE, since |-> NoSince] : f \in Filt, p \in BOOLEAN}
           ELSE {})
 ServerCfgs ==
-  {[kind |-> k, filt |-> f.filt, sf |-> f.sf, neg |-> f.neg, auto |-> FALSE, noep |-> FALSE, server |-> TRUE, since |-> NoSince] : k \in Kinds \cap {"pos", "plain", "nohist"}, f \in SFilt}
+  {[kind |-> k, filt |-> f.filt, sf |-> f.sf, neg |-> f.neg, pop |-> FALSE, auto |-> FALSE, noep |-> FALSE, server |-> TRUE, since |-> NoSince] : k \in Kinds \cap {"pos", "plain", "nohist"}, f \in SFilt}
   \cup (IF "rec" \in Kinds
-          THEN {[kind |-> "rec", filt |-> f.filt, sf |-> f.sf, neg |-> f.neg, auto |-> FALSE, noep |-> FALSE, server |-> TRUE, since |-> [off |-> o, ep |-> e]] :
+          THEN {[kind |-> "rec", filt |-> f.filt, sf |-> f.sf, neg |-> f.neg, pop |-> FALSE, auto |-> FALSE, noep |-> FALSE, server |-> TRUE, since |-> [off |-> o, ep |-> e]] :
                   f \in SFilt, o \in 0..MaxPub, e \in {"", Ep, "e2"}}
           ELSE {})
 Cfgs == (IF FALSE \in Servers THEN ClientCfgs ELSE {}) \cup (IF TRUE \in Servers THEN ServerCfgs ELSE {})
@@ -235,8 +235,42 @@ Recovered ==
   /\ IF hres.pubs = <<>> THEN hres.top = cfg.since.off
      ELSE hres.pubs[1].off = cfg.since.off + 1 /\ hres.pubs[Len(hres.pubs)].off = hres.top
 
+\* cache recovery with a cache-empty handler (Node.OnCacheEmpty, an application callback): when the first read found
+\* no publication at all and did not recover, the handler is called; if it reports Populated the cache is read once more
+\* (pop: the application populates, i.e. publishes into the channel from inside the handler)
+SameFirst == cfg.since.off > 0 /\ cfg.since.off = hres.top /\ cfg.since.ep = Ep
+NeedsHandler == cfg.kind = "cache" /\ cfg.pop /\ hres.latest = 0 /\ ~SameFirst
+
+SubToHandler ==                              \* released after the first read -> parked inside the cache-empty handler
+  /\ pc = "g3" /\ NeedsHandler
+  /\ pc' = "gp"
+  /\ UNCHANGED <<top, win, tags, wire, npub, faults, cfg, hub, hres, buf, sub, pend, chk, nchk, out>>
+  /\ step' = [act |-> "SubToHandler"]
+
+\* the handler publishes one publication and answers Populated; the second read happens -> parked after it
+SubPopulate(tag) ==
+  /\ pc = "gp" /\ npub < MaxPub
+  /\ npub' = npub + 1 /\ top' = top + 1 /\ tags' = Append(tags, tag)
+  /\ LET w  == Append(win, [off |-> top + 1, tag |-> tag])
+         w2 == IF Len(w) > HistSize THEN SubSeq(w, Len(w) - HistSize + 1, Len(w)) ELSE w
+     IN /\ win' = w2
+        /\ hres' = [pubs |-> <<>>, top |-> top + 1,
+                    vis |-> IF cfg.filt THEN NewestVisible(Scan(w2)) ELSE Newest(w2),
+                    latest |-> Newest(w2), win |-> w2]
+  /\ wire' = wire \cup {[id |-> npub + 1, off |-> top + 1, ep |-> Ep, tag |-> tag, lag |-> FALSE]}
+  /\ pc' = "g4"
+  /\ UNCHANGED <<faults, cfg, hub, buf, sub, pend, chk, nchk, out>>
+  /\ step' = [act |-> "SubPopulate", tag |-> tag, id |-> npub + 1]
+
+SubNoPopulate ==                             \* the handler has nothing to publish: Populated = FALSE, no second read
+  /\ pc = "gp" /\ npub >= MaxPub
+  /\ pc' = "g4"
+  /\ UNCHANGED <<top, win, tags, wire, npub, faults, cfg, hub, hres, buf, sub, pend, chk, nchk, out>>
+  /\ step' = [act |-> "SubNoPopulate"]
+
 SubFinish ==
-  /\ \/ pc = "g3"
+  /\ \/ pc = "g3" /\ ~NeedsHandler
+     \/ pc = "g4"
      \/ pc = "g1" /\ ~Positioned             \* non-positioned: no history call at all
   /\ IF ~Positioned
        THEN /\ out' = Append(out, [t |-> "reply", off |-> 0, recovered |-> FALSE, pubs |-> <<>>])
@@ -330,6 +364,7 @@ Next ==
   \/ \E d \in wire, k \in BOOLEAN, f \in BOOLEAN, l \in BOOLEAN : Deliver(d, k, f, l)
   \/ AsyncEnd
   \/ SubStart \/ SubToHistory \/ SubHistRead \/ SubFinish
+  \/ SubToHandler \/ SubNoPopulate \/ \E t \in TagsOffered : SubPopulate(t)
   \/ CheckStart \/ CheckRead \/ CheckEnd
 
 Spec == Init /\ [][Next]_vars
